@@ -13,9 +13,15 @@ ew.native_witnesses = ["c11_wit_extend_overrides_in_place", "c11_wit_extend_by_n
 ex = VerusUnit("c11_extend", "c11_extend", rlimit=30, paired_kani=(ew, []))
 cw = KaniUnit("c11_collect_wit", "routee-compass", modules=[dict(file="routee-compass/src/app/search/search_app_ops.rs", src="c11_collect_wit.rs")], harnesses=[])
 cw.native_witnesses = ["c11_wit_query_declarations_come_after_the_models_features"]
+cd = KaniUnit("c11_codec", CORE, modules=[dict(file=CORE + "/src/model/state/custom_feature_format.rs", src="c11_codec.rs")], harnesses=[
+    H("c11_codec_f64_roundtrip", "complete", "CustomFeatureFormat::FloatingPoint: decode_f64(encode_f64(x)) == x for every f64 that is not NaN", timeout=120),
+    H("c11_codec_i64_roundtrip", "complete", "CustomFeatureFormat::SignedInteger: decode_i64(encode_i64(x)) == x for every |x| <= 2^53 (the integers an f64 state variable holds exactly)", timeout=200),
+    H("c11_codec_u64_roundtrip", "complete", "CustomFeatureFormat::UnsignedInteger: decode_u64(encode_u64(x)) == x for every x <= 2^53", timeout=200),
+    H("c11_codec_bool_roundtrip", "complete", "CustomFeatureFormat::Boolean: decode_bool(encode_bool(b)) == b, stored as 0 or 1", timeout=120)])
+cd.native_witnesses = ["c11_wit_codecs_refuse_the_wrong_kind"]
 ins = VerusUnit("c11_instance", "c11_instance", rlimit=30)
 ft = VerusUnit("c11_feature", "c11_feature", rlimit=30)
-UNITS = [v_unit, sm, ex, ins, ft, k_unit, ew, cw]
+UNITS = [v_unit, sm, ex, ins, ft, k_unit, ew, cw, cd]
 EXPLANATION = ("CompactOrderedHashMap::{empty,len,is_empty,contains_key,get,get_index,get_pair,insert} and the iterator's next extracted verbatim and verified by Verus at every size "
                "against an abstract (slot map, value map) view with a whole-view postcondition for insert; representation invariant: slots < len, pairwise distinct; "
                "'the slots are 0..n-1 with none shared or skipped' (pigeonhole lemma, proved by induction): with the invariant EVERY slot below len is owned by a key; "
